@@ -93,6 +93,8 @@ pub struct Model {
     pub listeners: BTreeMap<Uuid, MListener>,
     /// every broker-chosen cookie ever seen in this case (freshness)
     pub seen_cookies: BTreeSet<Uuid>,
+    /// connections on which nothing can be observed (their broker-side task was dropped)
+    pub unobservable: BTreeSet<C>,
 }
 
 /// One expected message with flexibility markers.
@@ -1085,6 +1087,12 @@ impl Model {
             Message::CallFunction2(f) if callee_v >= 19 && f.service_cookie.0 == svc_cookie && f.function == function && f.version == version && !used.contains(&f.serial) => Some(f.serial),
             _ => None,
         });
+        let found = match found {
+            Some(cs) => Some(cs),
+            // the forward cannot be seen on a connection whose task is gone: any unused serial
+            None if self.unobservable.contains(&callee) => (0..=u32::MAX).find(|s| !used.contains(s)),
+            None => None,
+        };
         let Some(cs) = found else {
             eff.problems.push(format!(
                 "call serial {} to service {}: expected the call to be forwarded to its owner as {} with a callee-side serial not in use",
